@@ -1,4 +1,4 @@
--- PINNED by bin/pin_tables: copy of Gen/Dispatch.lean as generated from /repo at bf0bc58 — regenerate, do not edit
+-- PINNED by bin/pin_tables: copy of Gen/Dispatch.lean as generated from /repo at e9cf0dd — regenerate, do not edit
 namespace Ggql.Pinned
 def dispatchOrder : List String := ["resolver", "any", "reflect"]
 def opFallbackAnyName : Bool := false
@@ -28,6 +28,8 @@ def subOrderByMap : Bool := false
 def schemaDuringScan : Bool := false
 def objectUnchecked : Bool := false
 def argsInPlace : Bool := false
+def argsSortedOnce : Bool := false
+def reflectOptionalRefused : Bool := false
 def inputDefaultsRaw : Bool := true
 def listNotCoerced : Bool := false
 def symbolUnchecked : Bool := false
@@ -43,9 +45,10 @@ def argSkeleton : List (String × String) := [
   ("Root.addError", "c5f7e10ca815"),
   ("NonNull.CoerceIn", "07c35bfdab4c"),
   ("Root.formArgs", "4ce1628b3fc4"),
-  ("Root.formReflectArgs", "3966a01466f3"),
+  ("Root.formReflectArgs", "d5fdfd091c17"),
   ("Root.replaceArgVars", "8e6170986780"),
-  ("Root.resolveField", "071312e2043a"),
-  ("checkReflectArgs", "a983f6c0bc0d")
+  ("Root.resolveField", "6266357c727f"),
+  ("Root.resolveReflect", "3ca8b8cb64d4"),
+  ("checkReflectArgs", "2fe173b3f604")
 ]
 end Ggql.Pinned
